@@ -145,6 +145,17 @@ pub fn batch_cases(seed: u64, n: usize) -> Vec<Case> {
         }
         v.push(c);
     }
+    // a text and its "plane siblings" (the characters whose code points have the same low 16 bits in plane 2): launches
+    // meet them in different orders, and what a process remembers per character must not be shared between them
+    {
+        let p: String = "\u{1b}[1;32mok\u{1b}[0m build 42: all 17 targets done; \u{1b}[31mwarn\u{1b}[0m (3) <see log> #A1 {x=y} ".repeat(4);
+        let q: String = p.chars().map(|c| char::from_u32(0x20000 + c as u32).unwrap_or(c)).collect();
+        v.push(Case { bytes: p.clone().into_bytes(), sett: Sett::default(), tag: "plane-sibling:basic".into() });
+        v.push(Case { bytes: q.into_bytes(), sett: Sett::default(), tag: "plane-sibling:plane2".into() });
+        let mut s = Sett::default();
+        s.thr = 0.5;
+        v.push(Case { bytes: p.into_bytes(), sett: s, tag: "plane-sibling:basic-again".into() });
+    }
     // two inputs above the 1,000,000-byte limit that agree in length, in their first and in their last kilobytes and differ
     // only in the middle (and a third that differs in length by one): whatever a detection keeps about a large payload must
     // not answer for another one – launches meet them in different orders
